@@ -299,7 +299,7 @@ def plan(tier):
                 continue        # 4.3 M leaves (25 core-minutes): out of budget
             tasks.append(('batch', dict(kind='batch', original=original, d=d, N=N, n=n, model='scalar')))
         tasks.append(('batch', dict(kind='batch-explain-one', original=original, d=2, N=2, n=2, model='scalar')))
-        tasks.append(('batch', dict(kind='batch', original=original, d=2, N=3, n=1, model='scalar', sparse=True)))
+        # (sparse=True - collections.defaultdict observations - is NOT part of the plan, see DESIGN 9.4 and checks/c06.py)
         tasks.append(('batch', dict(kind='batch', original=original, d=2, N=2, n=1, model='multi')))
     for (d, N, n) in [(2, 2, 1), (2, 2, 2), (3, 2, 1)] + ([(2, 3, 1)] if deep else []):
         tasks.append(('batch', dict(kind='interval', original=False, d=d, N=N, n=n, model='scalar')))
